@@ -553,7 +553,10 @@ func cbor2JsonOneObject(src *bufio.Reader, dst io.Writer) {
 
 	switch major {
 	case majorTypeUnsignedInt:
-		fallthrough
+		// The argument of major type 0 covers the whole unsigned 64-bit range.
+		n := decodeInteger(src)
+		dst.Write([]byte(strconv.FormatUint(uint64(n), 10)))
+
 	case majorTypeNegativeInt:
 		n := decodeInteger(src)
 		dst.Write([]byte(strconv.Itoa(int(n))))
